@@ -370,3 +370,14 @@ def run(facts, rep, ctx):
     tb6(facts, rep)
     tb8(facts, rep)
     ts10(facts, rep)
+
+
+_run_before_round3 = run
+
+
+def run(facts, rep, ctx):
+    """rules added after the second seeding round, second half (rules/round3.py)"""
+    _run_before_round3(facts, rep, ctx)
+    from . import round3
+    round3.gd11(facts, rep)
+
